@@ -74,7 +74,7 @@ def main():
     ap.add_argument("prop", nargs="?")
     ap.add_argument("--tier", default=os.environ.get("VERIF_TIER", "quick"))
     ap.add_argument("--seed", type=int, default=int(os.environ.get("VERIF_SEED", "0")))
-    ap.add_argument("--jobs", type=int, default=int(os.environ.get("VERIF_JOBS", "16")))
+    ap.add_argument("--jobs", type=int, default=int(os.environ.get("VERIF_JOBS", str(max(2, min(16, os.cpu_count() or 16))))))
     ap.add_argument("--runs", type=int, default=None)
     ap.add_argument("--replay")
     ap.add_argument("--quiet", action="store_true")
